@@ -54,6 +54,7 @@ type span struct {
 }
 
 type canonizer struct {
+	base   map[ptrKey]int // read-only pre-seeded pointer ids (CanonRel): printed, not followed
 	opts   CanonOpts
 	parts  []string // text segments; between parts[i] and parts[i+1] sits ranks[i]
 	cur    *strings.Builder
@@ -63,6 +64,32 @@ type canonizer struct {
 	inMap  int
 	nodes  int
 	broken string
+}
+
+// CanonIDs is Canon that also returns the pointer numbering it assigned.
+func CanonIDs(opts CanonOpts, root any) (string, map[ptrKey]int) {
+	c := &canonizer{opts: opts, ptrs: map[ptrKey]int{}, cur: &strings.Builder{}}
+	c.walk(reflect.ValueOf(root))
+	return c.cur.String(), c.ptrs
+}
+
+// CanonRel fingerprints root relative to an already fingerprinted object graph: pointers
+// (and slice backing arrays) known in ids are printed by their id and not followed.  Used for
+// iterators, whose state is a few fields plus pointers into the unmodified container.
+// (Rank renaming is not applied: ranks reachable only through unfollowed pointers are not printed.)
+func CanonRel(opts CanonOpts, ids map[ptrKey]int, root any) string {
+	c := &canonizer{opts: opts, base: ids, ptrs: map[ptrKey]int{}, cur: &strings.Builder{}}
+	c.walk(reflect.ValueOf(root))
+	c.parts = append(c.parts, c.cur.String())
+	var out strings.Builder
+	for i, p := range c.parts {
+		out.WriteString(p)
+		if i < len(c.ranks) {
+			out.WriteString("R")
+			out.WriteString(strconv.FormatInt(c.ranks[i], 10))
+		}
+	}
+	return out.String()
 }
 
 // Canon returns the canonical string of the object graph rooted at the given values.
@@ -172,6 +199,10 @@ func (c *canonizer) walk(v reflect.Value) {
 			panic("canon: pointer inside a Go map is not supported")
 		}
 		k := ptrKey{v.Pointer(), t}
+		if id, ok := c.base[k]; ok {
+			c.w("^b" + strconv.Itoa(id))
+			return
+		}
 		if id, ok := c.ptrs[k]; ok {
 			c.w("^" + strconv.Itoa(id))
 			return
@@ -221,6 +252,10 @@ func (c *canonizer) walk(v reflect.Value) {
 			}
 			if c.inMap == 0 {
 				k := ptrKey{base, t}
+				if id, ok := c.base[k]; ok {
+					c.w("s^b" + strconv.Itoa(id) + "[" + strconv.Itoa(n) + "]")
+					return
+				}
 				if id, ok := c.ptrs[k]; ok {
 					c.w("s^" + strconv.Itoa(id))
 				} else {
